@@ -55,8 +55,9 @@ type outcome struct {
 	Final       map[string][]int // per output: seqs delivered after everything was shut down
 	Refused     map[string]int   // loopback: writes refused with a reported error
 	StopErr     string
-	Returned    bool // the stop call returned
-	Hung        bool // ... or is provably parked forever (goroutine dump in HungDump)
+	Returned    bool   // the stop call returned
+	Hung        bool   // ... or is provably parked forever (goroutine dump in HungDump)
+	Panicked    string // ... or panicked in the calling goroutine
 	HungDump    string
 	EarlyReturn bool // the stop call returned while the stalling gate was still closed
 	Leaked      []string
@@ -67,18 +68,19 @@ type outcome struct {
 }
 
 type attempt struct {
-	sc      scen
-	spec    pipeSpec
-	id      string
-	env     *rt.Env
-	hooks   *taskHooks
-	talk    *talkService
-	rec     *rt.RecHandler
-	post    *postSink
-	lg      *logGate
-	nodes   []string
-	parents [][]string
-	dl      deadlines
+	sc                   scen
+	spec                 pipeSpec
+	id                   string
+	env                  *rt.Env
+	hooks                *taskHooks
+	talk                 *talkService
+	rec                  *rt.RecHandler
+	post                 *postSink
+	lg                   *logGate
+	nodes                []string
+	parents              [][]string
+	stallKind, stallNode string
+	dl                   deadlines
 }
 
 type deadlines struct {
@@ -182,13 +184,16 @@ func runAttempt(sc scen, post *postSink, dl deadlines) (*outcome, *attempt, erro
 	case "":
 	case "sink":
 		stallSink = parts[1]
+		a.stallKind, a.stallNode = "sink", parts[1]
 		a.blockSink(stallSink)
 	case "run":
 		stallGate = newGate()
-		a.hooks.runGate[a.nodeByPrefix(parts[1])] = stallGate
+		a.stallKind, a.stallNode = "run", a.nodeByPrefix(parts[1])
+		a.hooks.runGate[a.stallNode] = stallGate
 	case "emit":
 		stallGate = newGate()
 		n := a.nodeByPrefix(parts[1])
+		a.stallKind, a.stallNode = "emit", n
 		k, _ := strconv.Atoi(parts[2])
 		a.hooks.emitGate[n], a.hooks.emitAt[n] = stallGate, k
 	default:
@@ -295,11 +300,17 @@ func runAttempt(sc scen, post *postSink, dl deadlines) (*outcome, *attempt, erro
 	type stopRes struct {
 		err      error
 		atReturn map[string][]int
+		panicked string
 	}
 	stopped := make(chan stopRes, 1)
 	t0 := time.Now()
 	go a.stopper(func() {
 		var err error
+		defer func() {
+			if r := recover(); r != nil {
+				stopped <- stopRes{nil, a.delivered(), fmt.Sprint(r)}
+			}
+		}()
 		switch sc.Stop {
 		case "StopTask":
 			err = env.TM.StopTask(a.id)
@@ -311,7 +322,7 @@ func runAttempt(sc scen, post *postSink, dl deadlines) (*outcome, *attempt, erro
 			env.TM.Drain()
 			env.TM.StopTasks()
 		}
-		stopped <- stopRes{err, a.delivered()}
+		stopped <- stopRes{err, a.delivered(), ""}
 	})
 	var sr stopRes
 	gotReturn := false
@@ -371,6 +382,9 @@ func runAttempt(sc scen, post *postSink, dl deadlines) (*outcome, *attempt, erro
 	}
 	if !gotReturn {
 		out.AtReturn = a.delivered()
+	} else if sr.panicked != "" {
+		out.Panicked = sr.panicked
+		out.AtReturn = sr.atReturn
 	} else {
 		out.Returned = true
 		out.AtReturn = sr.atReturn
@@ -427,7 +441,7 @@ func runAttempt(sc scen, post *postSink, dl deadlines) (*outcome, *attempt, erro
 	}
 
 	// ---- final counts after the whole environment is shut down (late vs lost; loopback)
-	if out.Returned {
+	if out.Returned || out.Panicked != "" {
 		a.hooks.releaseAll()
 		env.Influx.Release()
 		a.rec.Release()
